@@ -56,7 +56,20 @@ fn run_case(f: &[String]) -> String {
     rng.shuffle(&mut eff);
     let le2 = build(&eff);
     let permeq = le2 == le && le2.apply(qs, &env) == out;
-    format!("{};pure={};permeq={}", render_env(&out), u8::from(pure), u8::from(permeq))
+    // history independence: the same inserts with queries (for the query scope and the three fixed scopes, also on a clone)
+    // made after a prefix must give the same value and the same result as the freshly built one
+    let mut histeq = true;
+    let qs2 = parse_scope(&f[0]);
+    let n = ins.len();
+    for k in [0, n / 2, n.saturating_sub(1)] {
+        if k > n { continue; }
+        let mut h = build(&ins[..k]);
+        for sc in [qs2.clone(), Scope::All, Scope::Build, Scope::Launch] { let _ = h.apply(sc.clone(), &env); let _ = h.apply_to_empty(sc); }
+        let mut hc = h.clone();
+        for (s, b, nm, v) in &ins[k..] { h.insert(parse_scope(s), parse_beh(b), os(nm), os(v)); hc.insert(parse_scope(s), parse_beh(b), os(nm), os(v)); }
+        if h != le || h.apply(qs2.clone(), &env) != out || hc.apply(qs2.clone(), &env) != out { histeq = false; }
+    }
+    format!("{};pure={};permeq={};histeq={}", render_env(&out), u8::from(pure), u8::from(permeq), u8::from(histeq))
 }
 
 const NAMES: &[&[u8]] = &[b"A", b"B", b"PATH", b"A.b", b"\xffz", b"", b"A=", b"a"];
